@@ -7,3 +7,5 @@ func VerifCursor[T Sizer](m *Manager[T]) int { return m.roundRobinIndex }
 func VerifSetCursor[T Sizer](m *Manager[T], i int) { m.roundRobinIndex = i }
 
 func (m *Manager[T]) VerifCursorOf() int { return m.roundRobinIndex }
+
+func (m *Manager[T]) VerifItems() []T { return m.items }
